@@ -55,8 +55,20 @@ public:
    /// Adds a new argument.
    /// @param[in]  argHandler  The object used to handle this argument.
    /// @param[in]  key         The argument character, string or both.
+   /// @param[in]  also_check  Optional, second container of the same handler:
+   ///                         the key must not be used or conflict with a key
+   ///                         there either.
+   /// @throw  std::invalid_argument if the key is already used or conflicts
+   ///         with a stored key.
    /// @since  0.2, 10.04.2016
-   void addArgument( TypedArgBase* argHandler, const ArgumentKey& key);
+   void addArgument( TypedArgBase* argHandler, const ArgumentKey& key,
+                     const ArgumentContainer* also_check = nullptr);
+
+   /// Checks that the given key is not used by, and does not conflict with,
+   /// an argument stored in this container.
+   /// @param[in]  key  The key to check.
+   /// @throw  std::invalid_argument if the key is used or conflicts.
+   void checkKeyUnused( const ArgumentKey& key) const;
 
    /// After argument evaluating: Check that all mandatory arguments were set,
    /// and check that the cardinality requirements (if set) were met.
